@@ -368,6 +368,32 @@ func C10(p *ir.Program, r *report.R) {
 		r.Check("K2", "trie.(*Trie).Prove/walks-until-key-exhausted", p.Pos(pr.Pos()), okLoop, "the node collection loop runs while len(key) > 0 && tn != nil")
 	}
 
+	// ---- B7: a node reaches the disk after its children -------------------------------------------
+	// Database.commit flushes the batch whenever it is full, so a large commit is written in several
+	// steps. Children first: whatever prefix of the steps reached the disk, every node on it is
+	// complete, and a root that can be opened can be read ("reloads from the database" of the statement).
+	// Root first would leave an openable root with missing subtrees after an interrupted commit.
+	{
+		cm := p.Func("libs/trie", "Database.commit")
+		sets := ir.Calls(cm, "db.Batch.Set")
+		var rec []ssa.Instruction
+		for _, call := range ir.Calls(cm, "trie.Database.commit") {
+			rec = append(rec, call.(ssa.Instruction))
+		}
+		if c.MustFind("K2", "trie.(*Database).commit/shape", cm, len(sets)*len(rec), "batch.Set and the recursion into the children") {
+			bad := ""
+			for _, st := range sets {
+				for _, rc := range rec {
+					if found, _, tr := ir.FindPath(ir.PathQuery{From: ir.At(st.(ssa.Instruction)), Target: func(x ssa.Instruction) bool { return x == rc }}); found {
+						bad = fmt.Sprintf("the recursion at %s can run after the node was written at %s (blocks %v)", p.InstrPos(rc), p.InstrPos(st.(ssa.Instruction)), tr)
+					}
+				}
+			}
+			r.Check("K2", "trie.(*Database).commit/children-before-node", p.InstrPos(sets[0].(ssa.Instruction)), bad == "", "every child is committed before the node that references it is written. "+bad)
+			r.Check("K2", "trie.(*Database).commit/writes-this-node", p.InstrPos(sets[0].(ssa.Instruction)), Arg(sets[0], 1) == "hash[:]" && strings.HasPrefix(Arg(sets[0], 2), "trie.cachedNode.ser("), "the node is stored under its own hash: "+short(Arg(sets[0], 1), 40)+" = "+short(Arg(sets[0], 2), 60))
+		}
+	}
+
 }
 
 var _ = report.Discharged
